@@ -27,6 +27,15 @@ Sub-checks
              boundary 0, 1 (thorough: 0..depth-1; cache for the key empty / populated) x shape {a one-shot (at its 1st / 2nd call), a
              raising or a nodeStateChange one-shot member in every position among recording neighbours; two one-shots;
              one of several / all in one call unregistered at the next boundary}: a member never affects its neighbours
+  reconnect  <= 1 (thorough 2) messages, then the connection is lost (the scripted readline raises ConnectionClosed, the real
+             loop ends through its finally) and the client is connected again to a node whose description is {the same;
+             only node properties changed; a module added; a module removed; a parameter added; a parameter removed; a
+             datatype changed} - the harness does what SecopClient.connect() does with the `describe` answer: the real
+             _init_descriptive_data - then <= 2 messages from {update for old / added / removed modules and parameters,
+             error_update, module-only changed, reply}.  Oracle: cache and callbacks mirror the NEW node (same reference as
+             above with the identifier / type tables of the new description; cached entries survive until replaced);
+             descriptiveDataChange of node scope called exactly once iff anything changed, of an old module exactly once
+             iff its description changed
   datatypes  generated nodes with one parameter per catalogue type (vf.catalog.types) x all valid wire values of the
              type (vf.catalog.values) x message kinds x timestamps, and all pairs over the first values (depth 2)
 
@@ -117,6 +126,14 @@ class RecLog:
         raise AttributeError(name)
 
 
+class ConnectionLoss:
+    """an entry of the script at which the connection breaks (readline raises ConnectionClosed); the harness then plays
+    the part of SecopClient.connect(): it hands the description the node gives now to the real _init_descriptive_data
+    and lets the receive loop run on"""
+    def __init__(self, variant):
+        self.variant = variant
+
+
 class ScriptIO:
     """client.io: delivers the scripted lines; `ops[k]` are run at the boundary before line k (ops[len] after the last)"""
     def __init__(self, lines, ops, clock):
@@ -126,6 +143,7 @@ class ScriptIO:
         self.pos = 0            # number of lines handed out
         self.in_op = False
         self.closed = 0
+        self.lost = None
 
     def readline(self, timeout=None):
         self.in_op = True
@@ -139,6 +157,9 @@ class ScriptIO:
         line = self.lines[self.pos]
         self.pos += 1
         self.clock.now += 1.0
+        if isinstance(line, ConnectionLoss):
+            self.lost = line
+            raise ConnectionClosed()
         return line
 
     def shutdown(self):
@@ -159,12 +180,18 @@ def make_client(desc, log=None):
     return client
 
 
-def run_receive_loop(client, io):
-    """the real body of SecopClient.__rxthread, in this thread, until the scripted connection closes"""
-    client.io = io
-    client._running = True
-    client._shutdown.set()       # the loop's finally must not spawn the reconnect thread
-    client._SecopClient__rxthread()
+def run_receive_loop(client, io, on_loss=None):
+    """the real body of SecopClient.__rxthread, in this thread, until the scripted connection closes; at a ConnectionLoss
+    entry the loop ends through its own ConnectionClosed path, on_loss(entry) reconnects, and the loop is entered again"""
+    while True:
+        io.lost = None
+        client.io = io
+        client._running = True
+        client._shutdown.set()       # the loop's finally must not spawn the reconnect thread
+        client._SecopClient__rxthread()
+        if io.lost is None or on_loss is None:
+            break
+        on_loss(io.lost)
     if io.pos != len(io.lines):
         raise core.Inconclusive(f'receive loop ended after {io.pos} of {len(io.lines)} lines')
 
@@ -283,6 +310,12 @@ class Ref:
     KINDS = ('update', 'error_update', 'reply', 'changed', 'error_read')
 
     def __init__(self, modules):
+        self.cache = {}     # key -> (value, timestamp, err)
+        self.redescribe(modules)
+
+    def redescribe(self, modules):
+        """the node is described anew (reconnect): identifiers and types are those of the new description, what is cached
+        stays until a message replaces it"""
         self.idents = {}
         self.specs = {}
         for mod, accs in modules.items():
@@ -290,11 +323,10 @@ class Ref:
                 if spec is not None:
                     self.idents[f'{mod}:{wire}'] = (mod, internal_name(wire))
                     self.specs[mod, internal_name(wire)] = spec
-        self.cache = {}     # key -> (value, timestamp, err)
 
     def effect(self, msg, now):
         """-> None or (module, param, value, timestamp, err)"""
-        if msg.get('malformed') or msg['action'] not in self.KINDS:
+        if msg.get('malformed') or msg.get('reconnect') or msg['action'] not in self.KINDS:
             return None
         ident = msg['ident']
         key = self.idents.get(ident)
@@ -317,6 +349,8 @@ def render(msg):
     """the line of a symbolic message, written from the SECoP framing rule"""
     if msg.get('raw') is not None:
         return msg['raw']
+    if msg.get('reconnect'):
+        return ConnectionLoss(msg['reconnect'])
     if msg['action'] is None:
         return None      # silence
     t = msg.get('t')
@@ -375,6 +409,10 @@ def ident_class(ident):
         return 'none'
     if ident.startswith('n'):
         return 'other-module'
+    if ident.startswith('k'):
+        return 'added-module'
+    if ident == 'm:_q':
+        return 'added-param'
     if ident.startswith('g:_p'):
         return 'generated-param'
     if ident.startswith('m:'):
@@ -396,33 +434,96 @@ FOCUS = {
 }
 
 
-def focus_description():
-    from frappy.datatypes import FloatRange, IntRange, StringType
-    from frappy.modules import Command, Parameter, Readable, Writable
+_CLASSES = {}
 
-    class M12(Writable):
-        value = Parameter('v', FloatRange(), default=0.0)
-        target = Parameter('t', FloatRange(), default=0.0)
-        s = Parameter('s', StringType(isUTF8=True), default='', readonly=False)
 
-        @Command(IntRange(0, 5), result=IntRange())
-        def c(self, arg):
-            """a command"""
-            return arg
+def node_classes():
+    """the module classes of the focus node and of its variants (one set per process: the same class object must give the
+    same description)"""
+    if not _CLASSES:
+        from frappy.datatypes import FloatRange, IntRange, StringType
+        from frappy.modules import Command, Parameter, Readable, Writable
 
-    class N12(Readable):
-        value = Parameter('v', FloatRange(), default=0.0)
+        class M12(Writable):
+            value = Parameter('v', FloatRange(), default=0.0)
+            target = Parameter('t', FloatRange(), default=0.0)
+            s = Parameter('s', StringType(isUTF8=True), default='', readonly=False)
 
-    node = nodes.Node({'m': {'cls': M12}, 'n': {'cls': N12}}, name='c12f')
+            @Command(IntRange(0, 5), result=IntRange())
+            def c(self, arg):
+                """a command"""
+                return arg
+
+        class N12(Readable):
+            value = Parameter('v', FloatRange(), default=0.0)
+
+        class M12q(M12):        # a parameter more
+            q = Parameter('q', IntRange(0, 100), default=0, readonly=False)
+
+        class M12i(M12):        # value and target have another datatype
+            value = Parameter('v', IntRange(0, 100), default=0)
+            target = Parameter('t', IntRange(0, 100), default=0)
+
+        class M12r(Writable):   # the custom parameter is gone
+            value = Parameter('v', FloatRange(), default=0.0)
+            target = Parameter('t', FloatRange(), default=0.0)
+
+            @Command(IntRange(0, 5), result=IntRange())
+            def c(self, arg):
+                """a command"""
+                return arg
+
+        _CLASSES.update(M12=M12, N12=N12, M12q=M12q, M12i=M12i, M12r=M12r)
+    return _CLASSES
+
+
+def _edit(base, **changes):
+    res = {k: dict(v) for k, v in base.items()}
+    for mod, accs in changes.items():
+        if accs is None:
+            res.pop(mod)
+        else:
+            res.setdefault(mod, {}).update(accs)
+            for k in [k for k, v in res[mod].items() if v == 'absent']:
+                del res[mod][k]
+    return res
+
+
+INT100 = ('int', 0, 100)
+# what the node is after the connection came back: (module -> class name, node description text, reference table, modules of
+# the OLD description whose description changed, anything changed at all)
+VARIANTS = {
+    'same': ({'m': 'M12', 'n': 'N12'}, None, FOCUS, (), False),
+    'node-properties-changed': ({'m': 'M12', 'n': 'N12'}, 'the node was renamed', FOCUS, (), True),
+    'module-added': ({'m': 'M12', 'n': 'N12', 'k': 'N12'}, None, _edit(FOCUS, k=FOCUS['n']), (), True),
+    'module-removed': ({'m': 'M12'}, None, _edit(FOCUS, n=None), ('n',), True),
+    'parameter-added': ({'m': 'M12q', 'n': 'N12'}, None, _edit(FOCUS, m={'_q': INT100}), ('m',), True),
+    'parameter-removed': ({'m': 'M12r', 'n': 'N12'}, None, _edit(FOCUS, m={'_s': 'absent'}), ('m',), True),
+    'datatype-changed': ({'m': 'M12i', 'n': 'N12'}, None, _edit(FOCUS, m={'value': INT100, 'target': INT100}), ('m',), True),
+}
+VARIANT_NAMES = tuple(VARIANTS)
+
+
+def variant_description(name):
+    classes = node_classes()
+    modcls, text, refmodules, _changed, _any = VARIANTS[name]
+    node = nodes.Node({m: {'cls': classes[c]} for m, c in modcls.items()}, node_cfg={'description': text} if text else None,
+                      name='c12f')
     try:
         desc = wire_description(node)
     finally:
         node.close()
     # the reference's idea of the node must be what the node says about itself (names only; types are the harness's own)
-    for mod, accs in FOCUS.items():
+    for mod, accs in refmodules.items():
         if set(desc['modules'][mod]['accessibles']) != set(accs):
-            raise core.Inconclusive(f'focus node describes {sorted(desc["modules"][mod]["accessibles"])} for {mod}')
+            raise core.Inconclusive(f'node variant {name} describes {sorted(desc["modules"][mod]["accessibles"])} for {mod}')
+    if set(desc['modules']) != set(refmodules):
+        raise core.Inconclusive(f'node variant {name} describes modules {sorted(desc["modules"])}')
     return desc
+
+
+def focus_description():
+    return variant_description('same')
 
 
 def alphabet(tier):
@@ -710,10 +811,37 @@ def compare_calls(spec, exp, got):
     return None
 
 
+class DescRecorder:
+    """descriptiveDataChange callback of one scope"""
+    def __init__(self, key):
+        self.key = key
+        self.calls = []
+        self.__name__ = 'descriptiveDataChange'
+
+    def __call__(self, module, client):
+        self.calls.append(module)
+
+
 def execute(desc, refmodules, msgs, specs, clock, part, case, pending=()):
-    """run one history with one bundle against the real client; judge cache and callback logs"""
+    """run one history with one bundle against the real client; judge cache and callback logs.  A message with the key
+    `reconnect` is a connection loss followed by a reconnect to the node variant of that name"""
     clock.now = NOW0
     client = make_client(desc)
+    recon = [m['reconnect'] for m in msgs if m.get('reconnect')]
+    ctx = f'after-reconnect:{recon[0]}:' if recon else ''
+    descrec = {}
+    losses = []
+    if recon:
+        if len(recon) > 1:
+            raise core.Inconclusive('one reconnect per history (the variant table is relative to the first description)')
+        for key in [None] + sorted(set(refmodules) | set(VARIANTS[recon[0]][2])):
+            descrec[key] = DescRecorder(key)
+            client.register_callback(key, descriptiveDataChange=descrec[key])
+
+    def on_loss(entry):
+        # what SecopClient.connect() does with the answer to `describe` after the connection is there again
+        losses.append(entry.variant)
+        client._init_descriptive_data(variant_desc(entry.variant))
     waiting = []
     for key in pending:
         entry = [('read' if key[0] == 'reply' else 'change', key[1], None), threading.Event(), None]
@@ -748,7 +876,7 @@ def execute(desc, refmodules, msgs, specs, clock, part, case, pending=()):
                     lambda m=members: client.unregister_callback(m[0].key, **{c.cbname: c for c in m}))
             members.append(s)
     # at one boundary: unregistrations of earlier callbacks and registrations in list order (reg < unreg always)
-    run_receive_loop(client, io)
+    run_receive_loop(client, io, on_loss)
     part.evaluations += 1
     part.traces += 1
     part.transitions += len(lines) + sum(len(s.calls) for s in specs)
@@ -756,9 +884,27 @@ def execute(desc, refmodules, msgs, specs, clock, part, case, pending=()):
     ref = Ref(refmodules)
     effects = []
     for j, m in enumerate(msgs):
+        if m.get('reconnect'):
+            ref.redescribe(VARIANTS[m['reconnect']][2])
         eff = ref.effect(m, NOW0 + j + 1.0)
         effects.append(eff)
         ref.apply(eff)
+    if recon:
+        # descriptiveDataChange: node scope once iff anything changed; a module of the old description once iff its own
+        # description changed (or it is gone); a module that is new is not judged (the statement does not say who is told)
+        _cls, _text, _table, changed, anything = VARIANTS[recon[0]]
+        if losses != recon:
+            raise core.Inconclusive(f'reconnects executed {losses}, scripted {recon}')
+        for key, rec in descrec.items():
+            if key is not None and key not in refmodules:
+                continue
+            want = int(anything) if key is None else int(key in changed)
+            if len(rec.calls) != want:
+                how = 'not-called' if len(rec.calls) < want else 'called-without-a-change' if not want else 'called-repeatedly'
+                part.violation(f'C12:reconnect:{recon[0]}:descriptiveDataChange:{"node" if key is None else "module"}-scope:{how}',
+                               case, f'history {">".join(m["tag"] for m in msgs)}: descriptiveDataChange callback of scope {key!r} '
+                               f'was called {len(rec.calls)} times {rec.calls!r}, expected {want}')
+        part.outcomes[f'reconnect:{recon[0]}'] += 1
     hist = '>'.join(m['tag'] for m in msgs)
     last = {}
     for j, eff in enumerate(effects):
@@ -767,23 +913,23 @@ def execute(desc, refmodules, msgs, specs, clock, part, case, pending=()):
     # cache
     got_keys = set(client.cache)
     for key in sorted(got_keys - set(ref.cache)):
-        part.violation(f'C12:cache:phantom-entry:{key_class(key)}', case,
+        part.violation(f'C12:{ctx}cache:phantom-entry:{key_class(key)}', case,
                        f'history {hist}: cache has {key} = {client.cache[key]!r}, no message carried a state for it')
     for key, (v, ts, err) in ref.cache.items():
         if key not in got_keys:
-            part.violation(f'C12:cache:entry-missing:last={sigclass(last[key], "")}', case,
+            part.violation(f'C12:{ctx}cache:entry-missing:last={sigclass(last[key], "")}', case,
                            f'history {hist}: no cache entry for {key}, expected {(v, ts, err)!r}')
             continue
         item = client.cache[key]
         if not veq(v, item.value):
-            part.violation(f'C12:cache:wrong-value:last={sigclass(last[key], "value")}', case,
+            part.violation(f'C12:{ctx}cache:wrong-value:last={sigclass(last[key], "value")}', case,
                            f'history {hist}: cache[{key}].value = {item.value!r}, expected {v!r} (import of the last message)')
         elif item.timestamp != ts:
             cls = 'in-the-future' if item.timestamp is not None and item.timestamp > clock.now else 'differs'
-            part.violation(f'C12:cache:timestamp-{cls}:last={sigclass(last[key], "timestamp")}', case,
+            part.violation(f'C12:{ctx}cache:timestamp-{cls}:last={sigclass(last[key], "timestamp")}', case,
                            f'history {hist}: cache[{key}].timestamp = {item.timestamp!r}, expected {ts!r} (now = {clock.now})')
         elif not erreq(err, item.readerror):
-            part.violation(f'C12:cache:wrong-readerror:last={sigclass(last[key], "readerror")}', case,
+            part.violation(f'C12:{ctx}cache:wrong-readerror:last={sigclass(last[key], "readerror")}', case,
                            f'history {hist}: cache[{key}].readerror = {item.readerror!r} ({type(item.readerror).__name__}), '
                            f'expected error report {err!r}')
     part.outcomes['cache:' + ','.join(sorted(f'{k[0]}.{k[1]}={"err" if e[2] else "val"}' for k, e in ref.cache.items()))] += 1
@@ -799,7 +945,8 @@ def execute(desc, refmodules, msgs, specs, clock, part, case, pending=()):
         res = compare_calls(s, exp, s.calls)
         if res is not None:
             kind = next((m['tag'] for m, e in zip(msgs, effects) if e is not None), 'no-effective-message')
-            part.violation(f'C12:callback:{s.sigpattern()}:{res[0]}', case,
+            # after a reconnect the scope is the input class (every callback here only records)
+            part.violation(f'C12:{ctx}callback:{s.levelname if ctx else s.sigpattern()}:{res[0]}', case,
                            f'history {hist}; callback {s!r}: {res[1]}; calls {s.calls!r}; first effective message {kind}')
     return ref
 
@@ -816,6 +963,70 @@ def canon(ref):
 # shards
 
 _FOCUS = {}
+_VDESC = {}
+
+
+def variant_desc(name):
+    if name not in _VDESC:
+        _VDESC[name] = variant_description(name)
+    return _VDESC[name]
+
+
+# --- reconnect histories
+
+def RECONNECT(variant):
+    return {'action': None, 'ident': None, 'reconnect': variant, 'tag': f'connection-lost+reconnect[{variant}]'}
+
+
+def reconnect_alphabet():
+    return [
+        M('update', 'm:value', 3, PAST),            # valid as double and as int
+        M('update', 'n:value', 9.5, None),
+        M('update', 'k:value', 4.5, PAST),          # module k exists after `module-added` only
+        M('update', 'm:_q', 7, None),               # parameter q exists after `parameter-added` only
+        M('error_update', 'm:value', err=('HardwareError', 'hw fail'), t=PAST),
+        M('changed', 'm', 5, None),
+        M('update', 'm:_s', 'abc', FUTURE),
+        M('reply', 'n', 2.5, None),
+    ]
+
+
+RECONNECT_LEVELS = (('node', None), ('module', 'm'), ('param', ('m', 'value')), ('othermodule', 'n'), ('addedmodule', 'k'),
+                    ('addedmodule-param', ('k', 'value')), ('added-param', ('m', 'q')), ('custom-param', ('m', 's')))
+
+
+def reconnect_bundle(nmsg):
+    """recording callbacks on every level, registered before everything and registered right after the reconnect"""
+    return [CbSpec(l, n) for l in RECONNECT_LEVELS for n in CBNAMES] + \
+        [CbSpec(l, n, reg=k) for l in RECONNECT_LEVELS[:6] for n in CBNAMES for k in range(1, nmsg)]
+
+
+def reconnect_lengths(tier):
+    return (1, 2) if tier == 'quick' else (2, 2)
+
+
+def shard_reconnect(shard):
+    """shard = (variant index, first-phase history as tuple): all second-phase histories"""
+    vi, h1 = shard
+    tier = core.TIER
+    variant = VARIANT_NAMES[vi]
+    A = reconnect_alphabet()
+    part = core.Part()
+    seen = set()
+    _len1, len2 = reconnect_lengths(tier)
+    with virtual_clock() as clock:
+        for d in range(len2 + 1):
+            for h2 in itertools.product(range(len(A)), repeat=d):
+                msgs = [A[k] for k in h1] + [RECONNECT(variant)] + [A[k] for k in h2]
+                case = {'sub': 'reconnect', 'variant': variant, 'before': list(h1), 'after': list(h2)}
+                ref = execute(focus(), FOCUS, msgs, reconnect_bundle(len(msgs)), clock, part, case)
+                part.nontrivial += 1 if ref.cache else 0
+                seen.add(canon(ref))
+                if part.evaluations % 211 == 1:
+                    part.sample({'history': [m['tag'] for m in msgs], 'cache': {f'{k[0]}:{k[1]}': repr(v) for k, v in ref.cache.items()}})
+    part.states = len(seen)
+    return part
+
 
 
 def focus():
@@ -977,6 +1188,10 @@ def _run_sequential(ctx):
     depth = history_depth(tier)
     if not only or 'histories' in only:
         ctx.pmap(shard_histories, [(i, j) for i in range(nA) for j in range(nA)], name='histories')
+    if not only or 'reconnect' in only:
+        nR = len(reconnect_alphabet())
+        firsts = [h for d in range(reconnect_lengths(tier)[0] + 1) for h in itertools.product(range(nR), repeat=d)]
+        ctx.pmap(shard_reconnect, [(vi, h) for vi in range(len(VARIANT_NAMES)) for h in firsts], name='reconnect')
     nspecs = len(dt_specs(tier))
     if not only or 'datatypes' in only:
         ctx.pmap(shard_datatypes, [(i, min(i + PER_NODE, nspecs)) for i in range(0, nspecs, PER_NODE)], name='datatypes')
@@ -991,7 +1206,10 @@ def _run_sequential(ctx):
         'registration; and several callbacks registered in ONE register_callback call - by keyword / positionally, on the three key '
         'levels, at boundary 0 and 1 (thorough 0..depth-1), a one-shot / raising / nodeStateChange-one-shot member in every position, one or all of them '
         'unregistered later); datatypes: one generated parameter per catalogue type x every valid wire value x message kind, all histories '
-        'of length 1 and (first values x all) of length 2. evaluations = executions of the real __rxthread body (history x '
+        'of length 1 and (first values x all) of length 2; reconnect: <= 1 (2 thorough) messages, connection loss, reconnect to a '
+        'node variant (same / node properties changed / module added / module removed / parameter added / parameter removed / '
+        'datatype changed) through the real _init_descriptive_data, <= 2 messages, callbacks on 8 levels registered before and '
+        'after. evaluations = executions of the real __rxthread body (history x '
         'bundle); distinct_nontrivial = histories with at least one effective message; states = distinct reference cache states '
         'reached (summed over shards); transitions = messages delivered + callback invocations')
     ctx.coverage.update(bound_completed=f'history length <= {depth}; datatype histories <= 2', alphabet=nA, callback_patterns=npat,
@@ -1010,7 +1228,11 @@ def replay(case):
     part = core.Part()
     tier = case.get('tier', 'thorough')
     with virtual_clock() as clock:
-        if case['sub'] == 'history':
+        if case['sub'] == 'reconnect':
+            A = reconnect_alphabet()
+            msgs = [A[k] for k in case['before']] + [RECONNECT(case['variant'])] + [A[k] for k in case['after']]
+            execute(focus(), FOCUS, msgs, reconnect_bundle(len(msgs)), clock, part, case)
+        elif case['sub'] == 'history':
             A = alphabet(tier)
             msgs = [A[k] for k in case['history']]
             execute(focus(), FOCUS, msgs, bundles(history_depth(tier), tier)[case['bundle']], clock, part, case,
